@@ -202,11 +202,13 @@ static void run_product(Ctx& c, int kern, int ellc, int opfam, uint64_t seed) {
     const int mode = (int)r.below(4);
     const unsigned fixed = 1 + (unsigned)r.below(14);
     for (uint64_t i = 0; i < ell; ++i) {
-      unsigned mx = mode == 0 ? fixed : mode == 1 ? ((i & 1) ? 0xA : 0x5) : mode == 2 ? (unsigned)r.below(16) : (i == pos ? fixed : 0xF);
+      // 8 mask bits: the x2 kernels carry two coefficients (2 x 4 lanes) per row, and a whole coefficient may be zero while the other is not
+      unsigned mx = mode == 0 ? (fixed | (((fixed * 7) & 0xF) << 4)) : mode == 1 ? ((i & 1) ? 0xF0 : 0x0F) : mode == 2 ? (unsigned)r.below(256) : (i == pos ? fixed : 0xFF);
+      if (mode == 1 && (seed & 64)) mx ^= 0xFF;  // both phases of the alternation
       unsigned my = mode == 3 ? 0xF : (unsigned)r.below(3) == 0 ? (unsigned)r.below(16) : 0xF;
       for (uint64_t w = 0; w < sh.xw; ++w) {
         uint64_t v = (r.next() & 1) ? maxw(kern) : topw(kern, r);
-        x[i * sh.xw + w] = ((mx >> (w & 3)) & 1) ? v : 0;
+        x[i * sh.xw + w] = ((mx >> (w & 7)) & 1) ? v : 0;
       }
       if (!sh.ycl)
         for (uint64_t w = 0; w < 4; ++w) y64[i * 4 + w] = ((my >> w) & 1) ? ((r.next() & 1) ? maxw(kern) : topw(kern, r)) : 0;
